@@ -31,14 +31,34 @@ def rundir(name):
     return d
 
 
+REPO = os.environ.get("VERIF_REPO", "/repo")
+_TAG = "" if REPO == "/repo" else "-" + hashlib.sha1(REPO.encode()).hexdigest()[:8]
+if _TAG:
+    # isolated run against a scratch copy of the repository (mutant testing):
+    # separate binaries, run directories and replay directory
+    BIN = os.path.join(ROOT, "bin" + _TAG)
+    RUN = os.path.join(ROOT, "run", "alt" + _TAG)
+    EVID = os.path.join(RUN, "evidence")
+    REPLAY = os.path.join(RUN, "replay")
+
+
 def build_driver(race=False):
-    """Rebuild the driver from /repo's current working tree with hooks on."""
+    """Rebuild the driver from the repository's current working tree with hooks on."""
     os.makedirs(BIN, exist_ok=True)
     out = os.path.join(BIN, "wsdrive-race" if race else "wsdrive")
-    cmd = ["go", "build", "-tags", "verif"] + (["-race"] if race else []) + ["-o", out, "./cmd/wsdrive"]
+    cmd = ["go", "build", "-tags", "verif"] + (["-race"] if race else [])
     go_sum = os.path.join(HARNESS, "go.sum")
-    if not os.path.exists(go_sum) and os.path.exists("/repo/go.sum"):
-        shutil.copy("/repo/go.sum", go_sum)
+    if not os.path.exists(go_sum) and os.path.exists(os.path.join(REPO, "go.sum")):
+        shutil.copy(os.path.join(REPO, "go.sum"), go_sum)
+    if _TAG:
+        alt = os.path.join(HARNESS, "go.alt%s.mod" % _TAG)
+        with open(os.path.join(HARNESS, "go.mod")) as f:
+            txt = f.read().replace("=> /repo", "=> " + REPO)
+        with open(alt, "w") as f:
+            f.write(txt)
+        shutil.copy(go_sum, alt[:-4] + ".sum")
+        cmd += ["-modfile", alt]
+    cmd += ["-o", out, "./cmd/wsdrive"]
     p = subprocess.run(cmd, cwd=HARNESS, env=GOENV, capture_output=True, text=True)
     if p.returncode != 0:
         raise Infra("driver build failed:\n" + p.stdout + p.stderr)
